@@ -11,10 +11,13 @@ import (
 	"strconv"
 	"strings"
 
+	"github.com/decred/dcrd/dcrec/secp256k1/v4"
 	"github.com/elnosh/gonuts/cashu"
 	"github.com/elnosh/gonuts/cashu/nuts/nut04"
+	"github.com/elnosh/gonuts/cashu/nuts/nut05"
 	"github.com/elnosh/gonuts/cashu/nuts/nut10"
 	"github.com/elnosh/gonuts/cashu/nuts/nut11"
+	"github.com/elnosh/gonuts/cashu/nuts/nut12"
 	"github.com/elnosh/gonuts/mint"
 	"github.com/elnosh/gonuts/wallet"
 	"github.com/elnosh/gonuts/wallet/storage"
@@ -226,6 +229,19 @@ func (w *World) guard(op string, f func() error) (err error) {
 
 // CrashSentinel is the panic value used to kill a wallet at a boundary call (C19).
 type CrashSentinel struct{}
+
+// publishedKey: the public key a mint publishes for (keyset, amount).
+func (w *World) publishedKey(mint, id string, amount uint64) *secp256k1.PublicKey {
+	m := w.Mints[mint]
+	if m == nil {
+		return nil
+	}
+	ks, err := m.M.GetKeysetById(id)
+	if err != nil {
+		return nil
+	}
+	return ks.Keys[amount]
+}
 
 // feeOfKeyset: input_fee_ppk of a keyset at whichever mint of the world has it.
 func (w *World) feeOfKeyset(id string) uint {
@@ -445,6 +461,23 @@ func (w *World) Exec(op string) error {
 			return e
 		})
 		w.note(op, err)
+		if err != nil && strings.Contains(err.Error(), "invalid DLEQ") {
+			// the receiving wallet says the token's DLEQ proofs are invalid: are they, under the keys the mint publishes
+			// for each proof's own keyset?
+			allValid := true
+			for _, p := range tok.Proofs() {
+				if p.DLEQ == nil {
+					continue
+				}
+				K := w.publishedKey(t.Mint, p.Id, p.Amount)
+				if K == nil || !nut12.VerifyProofDLEQ(p, K) {
+					allValid = false
+				}
+			}
+			if allValid {
+				w.viol("C10,C18", "valid-dleq-refused-by-receiving-wallet", "%s failed with %q although every DLEQ proof of the token verifies under the published key of its keyset", op, err)
+			}
+		}
 		if err == nil {
 			w.Tokens = append(w.Tokens[:ti], w.Tokens[ti+1:]...)
 			after := ww.W.GetBalance()
@@ -492,8 +525,23 @@ func (w *World) Exec(op string) error {
 	case "checkmelt":
 		mi := atoi(arg(2))
 		if mi < len(ww.Melts) {
-			err := w.guard(op, func() error { _, e := ww.W.CheckMeltQuoteState(ww.Melts[mi].Quote); return e })
+			var st *nut05.PostMeltQuoteBolt11Response
+			err := w.guard(op, func() error { var e error; st, e = ww.W.CheckMeltQuoteState(ww.Melts[mi].Quote); return e })
 			w.note(op, err)
+			if err == nil && st != nil {
+				// reconciled: once the wallet has been told the final outcome, nothing of that melt is pending any more
+				left := ww.DB.Inner.GetPendingProofsByQuoteId(ww.Melts[mi].Quote)
+				switch st.State.String() {
+				case "PAID":
+					if len(left) > 0 {
+						w.viol("C17", "check-melt-paid-left-inputs-pending", "%s was told PAID but %d input(s) of that melt are still counted as pending (they are spent at the mint)", op, len(left))
+					}
+				case "UNPAID":
+					if len(left) > 0 {
+						w.viol("C17", "check-melt-unpaid-left-inputs-pending", "%s was told UNPAID but %d input(s) of that melt are still pending instead of spendable again", op, len(left))
+					}
+				}
+			}
 		}
 	case "reclaim":
 		before := ww.W.GetBalance()
